@@ -14,8 +14,11 @@ mod rng;
 mod x86;
 
 use injector_core::common::{Ev, FuncPtrInternal, SIM};
+#[cfg(not(sim_no_amd64))]
 use injector_core::patch_amd64::PatchAmd64;
+#[cfg(not(sim_no_arm))]
 use injector_core::patch_arm::PatchArm;
+#[cfg(not(sim_no_arm64))]
 use injector_core::patch_arm64::PatchArm64;
 use injector_core::patch_trait::PatchTrait;
 use out::{Verdict, J};
@@ -42,12 +45,26 @@ fn install(arch: Arch, src: u64, jit: u64, fake: u64, boolean: Option<bool>, sal
     let r = std::panic::catch_unwind(|| {
         let s = fpi(src);
         match (arch, boolean) {
+            #[cfg(not(sim_no_arm64))]
             (Arch::Arm64, None) => drop(PatchArm64::replace_function_with_other_function(s, fpi(fake))),
+            #[cfg(not(sim_no_arm64))]
             (Arch::Arm64, Some(b)) => drop(PatchArm64::replace_function_return_boolean(s, b)),
+            #[cfg(not(sim_no_arm))]
             (Arch::Arm, None) => drop(PatchArm::replace_function_with_other_function(s, fpi(fake))),
+            #[cfg(not(sim_no_arm))]
             (Arch::Arm, Some(b)) => drop(PatchArm::replace_function_return_boolean(s, b)),
+            #[cfg(not(sim_no_amd64))]
             (Arch::Amd64, None) => drop(PatchAmd64::replace_function_with_other_function(s, fpi(fake))),
+            #[cfg(not(sim_no_amd64))]
             (Arch::Amd64, Some(b)) => drop(PatchAmd64::replace_function_return_boolean(s, b)),
+            #[allow(unreachable_patterns)]
+            _ => {
+                // an emitter that was left out of this build (it no longer compiles against the shim) was asked for:
+                // nothing can be said; the scenarios only run with the emitters they need
+                eprintln!("HARNESS-ERROR emitter for {:?} is not part of this build", arch);
+                let _ = (s, fake, boolean);
+                std::process::exit(2);
+            }
         }
     });
     r.map_err(|p| {
@@ -814,7 +831,7 @@ fn run_c11sim(ctx: &Ctx) {
 /// overwritten, at the address that was overwritten, with the bytes that were there before.
 fn run_c02sim(ctx: &Ctx) {
     let n = if ctx.n > 0 { ctx.n } else if ctx.thorough { 400_000 } else { 30_000 };
-    let archs: [(&str, Arch); 3] = [("arm64", Arch::Arm64), ("arm", Arch::Arm), ("amd64", Arch::Amd64)];
+    let archs: Vec<(&str, Arch)> = [("arm64", Arch::Arm64, cfg!(not(sim_no_arm64))), ("arm", Arch::Arm, cfg!(not(sim_no_arm))), ("amd64", Arch::Amd64, cfg!(not(sim_no_amd64)))].iter().filter(|x| x.2).map(|x| (x.0, x.1)).collect();
     let mut total = 0u64;
     let mut idx = 0u64;
     for (name, arch) in archs {
